@@ -5,10 +5,13 @@
    in particular for "expired from the k-th check on", for every k, and for non-monotone clocks.
    PROVED here: never-larger (C04) under any deadline pattern; the evaluator returns the minimal
    completed trial whichever trials were skipped (tSkip) and in whichever order the others complete.
-   Fidelity (C01/C03) and well-formedness (C02) under deadlines are decided per run for every landing
-   point k by correspondence + specification oracle (their general theorems are partial, see C01/C02). *)
-From OxiVerif Require Import Base.Common Model.Types Model.Options Model.Evaluate Model.Optimize
-  Proofs.EvalProofs Proofs.PipelineProofs.
+   FIDELITY under any clock: the file-to-file theorems of C01 / C03 and the frame theorem of C10 are stated for an
+   arbitrary environment; they are instantiated here with an explicit, arbitrary clock (C13_fidelity_any_clock,
+   C13_alpha_fidelity_any_clock, C13_frames_any_clock), with the hypotheses of those theorems (`leaves`, zlib
+   oracle, container side conditions). Every landing point k and explicit answer patterns over the frame checks
+   are additionally replayed and decoded by the specification on every run. *)
+From OxiVerif Require Import Base.Common Spec.Adam7 Spec.Sem Spec.Decode Spec.DecodeFile Model.Types Model.Options Model.Headers Model.PngData Model.Evaluate Model.Optimize
+  Proofs.EvalProofs Proofs.PipelineProofs Proofs.LiftColor Proofs.LiftAlpha Proofs.PipelineLossless Proofs.FileToFile Proofs.FramePixels.
 
 (* the same statement as C04, made explicit for an arbitrary clock *)
 Theorem C13_never_larger_any_landing : forall (zd : deflater -> list Z -> list Z) zi br (clock : site -> bool)
@@ -48,3 +51,53 @@ Proof.
   apply G. exact H.
 Qed.
 Print Assumptions C13_all_skipped.
+
+(* fidelity, whichever checks of the clock see it expired (clock : site -> bool arbitrary, not even monotone) *)
+Theorem C13_fidelity_any_clock : forall (L : leaves) zd zi br (clock : site -> bool) o (inflate : list Z -> option (list Z)) bytes out pic nm ih rest,
+  let e := {| z_deflate := zd; z_inflate := zi; e_brute := br; dl := clock |} in
+  optimize_alpha o = false -> scale_16 o = false ->
+  bytes_ok bytes ->
+  spec_parse_png bytes = Some ((nm, ih) :: rest) ->
+  spec_decode_chunks inflate ((nm, ih) :: rest) = Some pic ->
+  List.filter (named spec_IHDR) rest = [] ->
+  (length (List.filter (named spec_PLTE) rest) <= 1)%nat -> (length (List.filter (named spec_tRNS) rest) <= 1)%nat ->
+  (forall x n y, z_inflate e x n = Ok y -> inflate x = Some y /\ bytes_ok y) ->
+  (forall d s, inflate (z_deflate e d s) = Some s) ->
+  (forall p, from_slice e bytes o = Ok p ->
+     spec_raw_size (width (hdr (raw p))) (height (hdr (raw p))) (bpp (hdr (raw p))) (interlaced (hdr (raw p))) true <= usize_max /\
+     wf_ctype (ctype (hdr (raw p))) (depth (hdr (raw p)))) ->
+  optimize_from_memory e o bytes = Ok out ->
+  out = bytes \/ exists p', out = output p' /\ (container_ok p' -> spec_decode_png inflate (output p') = Some pic).
+Proof. intros L zd zi br clock o inflate bytes out pic nm ih rest e. exact (optimize_from_memory_lossless_partial L e o inflate bytes out pic nm ih rest). Qed.
+Print Assumptions C13_fidelity_any_clock.
+
+Theorem C13_alpha_fidelity_any_clock : forall (L : leaves) zd zi br (clock : site -> bool) o (inflate : list Z -> option (list Z)) bytes out pic nm ih rest,
+  let e := {| z_deflate := zd; z_inflate := zi; e_brute := br; dl := clock |} in
+  scale_16 o = false ->
+  bytes_ok bytes ->
+  spec_parse_png bytes = Some ((nm, ih) :: rest) ->
+  spec_decode_chunks inflate ((nm, ih) :: rest) = Some pic ->
+  List.filter (named spec_IHDR) rest = [] ->
+  (length (List.filter (named spec_PLTE) rest) <= 1)%nat -> (length (List.filter (named spec_tRNS) rest) <= 1)%nat ->
+  (forall x n y, z_inflate e x n = Ok y -> inflate x = Some y /\ bytes_ok y) ->
+  (forall d s, inflate (z_deflate e d s) = Some s) ->
+  (forall p, from_slice e bytes o = Ok p ->
+     spec_raw_size (width (hdr (raw p))) (height (hdr (raw p))) (bpp (hdr (raw p))) (interlaced (hdr (raw p))) true <= usize_max /\
+     wf_ctype (ctype (hdr (raw p))) (depth (hdr (raw p)))) ->
+  optimize_from_memory e o bytes = Ok out ->
+  out = bytes \/ exists p', out = output p' /\
+    (container_ok p' -> exists pic', spec_decode_png inflate (output p') = Some pic' /\ pic_aequiv pic pic').
+Proof. intros L zd zi br clock o inflate bytes out pic nm ih rest e. exact (optimize_from_memory_alpha_partial L e o inflate bytes out pic nm ih rest). Qed.
+Print Assumptions C13_alpha_fidelity_any_clock.
+
+(* animated images: whichever frames the clock lets through, every frame still shows its picture *)
+Theorem C13_frames_any_clock : forall zd zi br (clock : site -> bool) (inflate : list Z -> option (list Z)) o p f fs',
+  let e := {| z_deflate := zd; z_inflate := zi; e_brute := br; dl := clock |} in
+  (forall x n y, z_inflate e x n = Ok y -> inflate x = Some y /\ bytes_ok y) ->
+  (forall d s, inflate (z_deflate e d s) = Some s) ->
+  wf_ctype (ctype (hdr (raw p))) (depth (hdr (raw p))) ->
+  Forall (fun fr => spec_raw_size (f_width fr) (f_height fr) (bpp (hdr (raw p))) (interlaced (hdr (raw p))) true <= usize_max) (frames p) ->
+  recompress_frames e o p f = Ok fs' ->
+  Forall2 (fun a b => frame_same (optimize_alpha o) (frame_picture inflate (hdr (raw p)) a) (frame_picture inflate (hdr (raw p)) b)) (frames p) fs'.
+Proof. intros zd zi br clock inflate o p f fs' e. exact (recompress_frames_top_pixels e inflate o p f fs'). Qed.
+Print Assumptions C13_frames_any_clock.
